@@ -10,7 +10,8 @@
   "Upgrade" := the handler hands a shared key to the protocol (which installs the transport
   cipher) and marks the connection verified (`upgrades`).
 -/
-import Proofs.PairVerifySym
+import Proofs.PairVerifyOrigin
+import Proofs.PairVerifyDY
 import Proofs.HandlerConsts
 namespace Hap.PV
 open Hap Hap.Tlv
@@ -357,10 +358,192 @@ theorem C02_complete (C : Crypto) (D : IdealDH C) (A : IdealAEAD C) (I : IdealSi
   · simp only [materialOf, hcp]
     exact I.complete _ _
 
+/-! ### Deepening round: every body, every history -/
+
+/-- **Only the key holder's signature on THIS exchange upgrades** (`StrongSig`).  For EVERY byte
+    string `body` in EVERY state: if the request upgrades, then its proof field *is* the signature
+    made with the secret key `sk` whose public key is registered *now* for the claimed identifier,
+    over `cepk ‖ identifier ‖ sepk` of the context this connection holds.  (The shape-restricted
+    corollaries above assume the proof is some `C.sign sk m`; this one covers junk proofs too.) -/
+theorem C02_upgrade_needs_signature (C : Crypto) (S : StrongSig C) (s : Sys) (c : Nat) (body : Bytes)
+    (h : upgrades (step C s (.verify c body)).2 = true) :
+    ∃ cl u sk, claimOf C (s.conns c) body = some cl ∧ C.parseUuid cl.uname = some u ∧
+      getKey s.pairings u = some (C.pkOf sk) ∧
+      cl.proof = some (C.sign sk (materialOf C cl.ctx cl.uname)) := by
+  rw [C02_iff_state] at h
+  obtain ⟨cl, proof, u, k, hcl, hpr, hu, hk, _, hv⟩ := h
+  obtain ⟨sk, rfl, rfl⟩ := S.only_sigs _ _ _ hv
+  exact ⟨cl, u, sk, hcl, hu, hk, hpr⟩
+
+/-- ... and the encrypted data *is* the sealing of that sub-TLV under the pre-session key derived
+    from both ephemeral keys of this exchange (`StrongAEAD`; in reachable states
+    `preKey = hkdf (X25519 (own private, presented public))`, `C02_ctx_fresh`). -/
+theorem C02_upgrade_needs_sealing (C : Crypto) (A : StrongAEAD C) (s : Sys) (c : Nat) (body : Bytes)
+    (h : upgrades (step C s (.verify c body)).2 = true) :
+    ∃ cl objs pt, claimOf C (s.conns c) body = some cl ∧ decode body [] = some objs ∧
+      lookupTag objs T_ENCRYPTED_DATA = some (C.aeadEnc cl.ctx.preKey NONCE3 pt) := by
+  rw [C02_iff_state] at h
+  obtain ⟨cl, _, _, _, hcl, _⟩ := h
+  obtain ⟨objs, enc, dec, h1, h2, h3⟩ := claimOf_opens C _ body cl hcl
+  exact ⟨cl, objs, dec, hcl, h1, by rw [h2, A.only_sealed _ _ _ _ h3]⟩
+
+/-- **A proof is good for one session.**  For every history: once a final message carrying the proof
+    `p` has upgraded a connection, no later request carrying the same proof `p` — on any connection,
+    re-encrypted under whatever key, after any number of further pairing changes and exchanges —
+    upgrades again.  ("Proofs replayed from another exchange are refused", derived rather than
+    assumed: the replayed proof names the consumed exchange's accessory key, which no later context
+    carries.)  `StrongSig` + `FreshKeys` for the key pairs generated in the history. -/
+theorem C02_proof_single_use (C : Crypto) (S : StrongSig C) {bound len : Nat} (F : FreshKeys C bound len)
+    (ops1 ops2 : List Op) (c1 c2 : Nat) (body1 body2 : Bytes) (cl2 : Claim) (p : Bytes)
+    (hb : ops1.length + 1 + ops2.length < bound)
+    (h1 : upgrades (step C (run C {} ops1) (.verify c1 body1)).2 = true)
+    (hp1 : ∃ cl1, claimOf C ((run C {} ops1).conns c1) body1 = some cl1 ∧ cl1.proof = some p)
+    (hcl2 : claimOf C ((run C (step C (run C {} ops1) (.verify c1 body1)).1 ops2).conns c2) body2 = some cl2)
+    (hp2 : cl2.proof = some p) :
+    upgrades (step C (run C (step C (run C {} ops1) (.verify c1 body1)).1 ops2) (.verify c2 body2)).2 = false := by
+  rw [Bool.eq_false_iff]; intro h2
+  obtain ⟨cl1, hcl1, hpr1⟩ := hp1
+  obtain ⟨cl1', _, sk1, hcl1', _, _, hs1⟩ := C02_upgrade_needs_signature C S _ c1 body1 h1
+  rw [hcl1] at hcl1'; cases hcl1'
+  obtain ⟨cl2', _, sk2, hcl2', _, _, hs2⟩ := C02_upgrade_needs_signature C S _ c2 body2 h2
+  rw [hcl2] at hcl2'; cases hcl2'
+  rw [hpr1] at hs1; rw [hp2] at hs2
+  have hsig : C.sign sk1 (materialOf C cl1.ctx cl1.uname) = C.sign sk2 (materialOf C cl2.ctx cl2.uname) := by
+    rw [← Option.some.inj hs1, ← Option.some.inj hs2]
+  have hmat := (S.sign_inj hsig).2
+  -- the state after the first upgrade holds no context named like the consumed one
+  have g1 := C02_ctx_fresh C ops1
+  have hctx1 := claimOf_ctx C _ body1 cl1 hcl1
+  have hlt1 := g1.lt c1 cl1.ctx hctx1
+  have hclk1 : (run C {} ops1).clock = ops1.length := by rw [run_clock]; simp
+  have hno : NoCtx cl1.ctx.priv (step C (run C {} ops1) (.verify c1 body1)).1 := by
+    intro a ctx ha
+    by_cases hac : a = c1
+    · subst hac
+      obtain ⟨_, _, _, _, _, _, henc, _⟩ := C02_upgrade_effect C _ a body1 h1
+      rw [henc] at ha; cases ha
+    · have ha' : ((run C {} ops1).conns a).enc = some ctx := by
+        rw [← step_conn_other C _ (.verify c1 body1) a (fun b e => hac (by cases e; rfl))]; exact ha
+      exact fun e => g1.distinct a c1 ctx cl1.ctx hac ha' hctx1 e
+  have hno2 := noCtx_run C cl1.ctx.priv _ ops2 hno (by rw [step_clock]; omega)
+  have hctx2 := claimOf_ctx C _ body2 cl2 hcl2
+  have hne : cl2.ctx.priv ≠ cl1.ctx.priv := hno2 c2 cl2.ctx hctx2
+  -- both names are below the bound, so the materials differ
+  have g2 : Good C (run C (step C (run C {} ops1) (.verify c1 body1)).1 ops2) :=
+    good_run C _ ops2 (good_step C _ _ g1)
+  have hlt2 := g2.lt c2 cl2.ctx hctx2
+  rw [run_clock, step_clock, hclk1] at hlt2
+  unfold materialOf at hmat
+  exact fresh_inj C F cl1.ctx.priv cl2.ctx.priv (by omega) (by omega) (Ne.symm hne) _ _ hmat
+
+/-- **Unpaired identifier → refused, for every later history** that does not register it again
+    (generalises `C02_removed_id_refused`: whatever made `v` unpaired — never paired, removed, or
+    swept away by the last-admin rule). -/
+theorem C02_unpaired_id_refused (C : Crypto) (t : Sys) (v : Uuid) (ops : List Op) (c : Nat)
+    (body : Bytes) (cl : Claim)
+    (h0 : getKey t.pairings v = none) (hops : ∀ op ∈ ops, ∀ k a, op ≠ .pair v k a)
+    (hcl : claimOf C ((run C t ops).conns c) body = some cl) (hu : C.parseUuid cl.uname = some v) :
+    upgrades (step C (run C t ops) (.verify c body)).2 = false :=
+  C02_unknown_id_refused C _ c body cl v hcl hu (pv_run_getKey_none C t ops v h0 hops)
+
+/-- **Last-admin sweep.**  When the removed controller `a` held the only admin pairing(s), EVERY
+    previously paired identifier `v` is refused afterwards, whatever proof it presents, for every
+    later history that does not register `v` again. -/
+theorem C02_swept_id_refused (C : Crypto) (s : Sys) (a v : Uuid) (ops : List Op) (c : Nat)
+    (body : Bytes) (cl : Claim)
+    (hpaired : (getKey s.pairings a).isSome = true)
+    (honly : ∀ e ∈ s.pairings, e.admin = true → e.uuid = a)
+    (hops : ∀ op ∈ ops, ∀ k ad, op ≠ .pair v k ad)
+    (hcl : claimOf C ((run C (step C s (.unpair a)).1 ops).conns c) body = some cl)
+    (hu : C.parseUuid cl.uname = some v) :
+    upgrades (step C (run C (step C s (.unpair a)).1 ops) (.verify c body)).2 = false := by
+  apply C02_unpaired_id_refused C _ v ops c body cl _ hops hcl hu
+  simp [step, hpaired, removePairing_last_admin _ _ honly, getKey]
+
+/-- **The first step is answered.**  On a paired accessory a first message with a usable ephemeral
+    key is answered with M2 (the accessory's fresh public key named by the step number, its
+    identifier and its signature over `sepk ‖ id ‖ cepk`, sealed under the pre-session key) and the
+    connection holds exactly this exchange's context; identity and privilege are untouched. -/
+theorem C02_first_step_answered (C : Crypto) (s : Sys) (c : Nat) (cpub shared : Bytes)
+    (hp : isPaired s.pairings = true) (hdh : C.dh s.clock cpub = some shared) :
+    let r := step C s (.verify c (encode [(T_SEQUENCE_NUM, [1]), (T_PUBLIC_KEY, cpub)]))
+    r.2 = some ⟨.pairing (m2Body C s.clock cpub shared), none⟩ ∧
+    (r.1.conns c).enc = some ⟨cpub, s.clock, shared, C.hkdf shared⟩ ∧
+    (r.1.conns c).verified = (s.conns c).verified ∧ (r.1.conns c).client = (s.conns c).client := by
+  simp [step, handler_first_step C s.pairings s.clock (s.conns c) cpub shared hp hdh, installCipher]
+
+/-- **Completeness of the whole exchange, under every interleaving.**  After ANY history `ops`, an
+    honest controller that sends its first message on connection `c` (ephemeral key pair `a`) and —
+    after ANY steps `mid` on other connections and ANY pairing changes — its final message for the
+    identifier `ident`, signed with the secret key whose public key is registered for it at that
+    moment, is upgraded.  (`IdealDH`, `IdealAEAD`, `IdealSig`.) -/
+theorem C02_complete_exchange (C : Crypto) (D : IdealDH C) (A : IdealAEAD C) (I : IdealSig C)
+    (ops mid : List Op) (c a : Nat) (ident sk shared : Bytes) (u : Uuid)
+    (hp : isPaired (run C {} ops).pairings = true)
+    (hsh : C.dh a (C.pubOf ops.length) = some shared)
+    (hmid : ∀ op ∈ mid, ∀ b, op ≠ .verify c b)
+    (hu : C.parseUuid ident = some u)
+    (hreg : getKey (run C {} (ops ++ [.verify c (encode [(T_SEQUENCE_NUM, [1]), (T_PUBLIC_KEY, C.pubOf a)])] ++ mid)).pairings u
+              = some (C.pkOf sk))
+    (hok : C.keyOk (C.pkOf sk) = true) :
+    upgrades (step C (run C {} (ops ++ [.verify c (encode [(T_SEQUENCE_NUM, [1]), (T_PUBLIC_KEY, C.pubOf a)])] ++ mid))
+      (.verify c
+        (encode [(T_SEQUENCE_NUM, [3]),
+                 (T_ENCRYPTED_DATA, C.aeadEnc (C.hkdf shared) NONCE3
+                    (encode [(T_USERNAME, ident),
+                             (T_PROOF, C.sign sk (C.pubOf a ++ ident ++ C.pubOf ops.length))]))]))).2 = true := by
+  have hclk : (run C {} ops).clock = ops.length := by rw [run_clock]; simp
+  have hdh : C.dh (run C {} ops).clock (C.pubOf a) = some shared := by rw [hclk, D.symm]; exact hsh
+  have h1 := (C02_first_step_answered C (run C {} ops) c (C.pubOf a) shared hp hdh).2.1
+  have hctx : ((run C {} (ops ++ [.verify c (encode [(T_SEQUENCE_NUM, [1]), (T_PUBLIC_KEY, C.pubOf a)])] ++ mid)).conns c).enc
+      = some ⟨C.pubOf a, ops.length, shared, C.hkdf shared⟩ := by
+    rw [run_append, run_append, C02_ctx_own C _ mid c hmid]
+    simp only [run]
+    rw [h1, hclk]
+  exact C02_complete C D A I _ c a ⟨C.pubOf a, ops.length, shared, C.hkdf shared⟩ ident sk shared u hctx rfl hsh hu hreg hok
+
+/-- **Session ⇒ the key holder signed this very exchange** (agreement, Dolev–Yao rule for signatures
+    as a restriction on runs: `Obeys`).  In every run of the world — pairing changes, requests with
+    ARBITRARY bytes on any connection, honest key holders signing messages — in which honest-key
+    signatures are presented to the accessory only if their holder issued them: when a request
+    upgrades connection `c` as controller `u`, the key registered for `u` now is `pkOf sk` for the
+    secret key `sk` the proof was made with, and if `sk` is an honest key then its holder has
+    signed exactly `cepk ‖ identifier ‖ sepk` of the context `c` holds — the ephemeral keys of
+    THIS exchange (`sepk` is named by the step that created the context and never reused,
+    `C02_ctx_fresh`; by `C02_proof_single_use` that signature buys no second session). -/
+theorem C02_session_origin (C : Crypto) (S : StrongSig C) (Honest : Bytes → Prop)
+    (ops : List WOp) (c : Nat) (body : Bytes)
+    (hob : Obeys C Honest {} (ops ++ [.sys (.verify c body)]))
+    (h : upgrades (step C (wrun C {} ops).sys (.verify c body)).2 = true) :
+    ∃ cl u sk, claimOf C ((wrun C {} ops).sys.conns c) body = some cl ∧ C.parseUuid cl.uname = some u ∧
+      getKey (wrun C {} ops).sys.pairings u = some (C.pkOf sk) ∧
+      cl.proof = some (C.sign sk (materialOf C cl.ctx cl.uname)) ∧
+      (Honest sk → (sk, materialOf C cl.ctx cl.uname) ∈ (wrun C {} ops).log) := by
+  obtain ⟨cl, u, sk, hcl, hu, hk, hpr⟩ := C02_upgrade_needs_signature C S _ c body h
+  refine ⟨cl, u, sk, hcl, hu, hk, hpr, fun hh => ?_⟩
+  have := obeys_append C Honest {} ops _ hob
+  simp only [Obeys] at this
+  exact this.1 cl sk _ hcl hpr hh
+
+/-- **Why an attacker obeys the rule** (term level, classic Dolev–Yao closure; `Proofs/PairVerifyDY`):
+    for messages of a free term algebra and an attacker that can pair / project, sign with keys it
+    derives, read signed messages, seal / open with keys it derives, derive keys and run
+    Diffie–Hellman with its own secrets — if the honest long-term secret `n` occurs in the observed
+    traffic `K` only as a signing key, under `pk` or inside a Diffie–Hellman value (which is how
+    pair-setup and pair-verify use it), then the secret is not derivable and every signature under
+    it that occurs ANYWHERE in ANY message the attacker can build occurs in an observed message,
+    i.e. was issued by the key holder.  This is `Obeys` of `C02_session_origin`, for terms. -/
+theorem C02_dy_signature_rule (K : DY.Tm → Prop) (n : Nat) (hK : ∀ k, K k → DY.Hid n k) :
+    ¬ DY.Der K (.sec n) ∧
+    ∀ t, DY.Der K t → ∀ m, DY.Occ (.sig (.sec n) m) t → ∃ k, K k ∧ DY.Occ (.sig (.sec n) m) k :=
+  ⟨DY.secret_underivable K n hK, fun _ h m hs => DY.sig_from_observed K n hK h m hs⟩
+
 /-! ### Non-vacuity: the hypothesis records are inhabited, and a concrete exchange runs -/
 
 example : IdealSig Sym.crypto ∧ IdealAEAD Sym.crypto ∧ IdealDH Sym.crypto ∧ FreshKeys Sym.crypto 256 32 :=
   ⟨Sym.idealSig, Sym.idealAEAD, Sym.idealDH, Sym.freshKeys⟩
+
+example : StrongSig Sym.crypto ∧ StrongAEAD Sym.crypto := ⟨Sym.strongSig, Sym.strongAEAD⟩
 
 namespace Demo
 open Sym
@@ -395,6 +578,97 @@ example : ((run crypto {} (hist ++ [.verify 0 (m3 skA 1)])).conns 0).verified = 
     ((run crypto {} (hist ++ [.verify 0 (m3 skA 1)])).conns 0).client = some uA ∧
     ((run crypto {} (hist ++ [.verify 0 (m3 skA 1)])).conns 0).cipher = some shared1 := by decide +kernel
 
+
+/-! hypotheses of the deepening-round theorems on concrete runs -/
+
+/-- a second exchange on connection 1 (controller key pair 201, accessory key pair named 3) -/
+def m1b : Bytes := encode [(T_SEQUENCE_NUM, [1]), (T_PUBLIC_KEY, crypto.pubOf 201)]
+/-- the proof that upgraded connection 0 -/
+def proofA : Bytes := crypto.sign skA (crypto.pubOf 200 ++ uA ++ crypto.pubOf 1)
+/-- the same proof, re-encrypted by somebody who completed a first step of their own -/
+def replayed : Bytes :=
+  encode [(T_SEQUENCE_NUM, [3]),
+          (T_ENCRYPTED_DATA, crypto.aeadEnc (crypto.hkdf [UInt8.ofNat 201 ^^^ UInt8.ofNat 3]) NONCE3
+            (encode [(T_USERNAME, uA), (T_PROOF, proofA)]))]
+def hist2 : List Op := hist ++ [.verify 0 (m3 skA 1), .verify 1 m1b]
+
+/-- `C02_proof_single_use`: the re-encrypted replay reaches the signature check (its claim exists and
+    carries the consumed proof) and is refused -/
+example : (claimOf crypto ((run crypto {} hist2).conns 1) replayed).map (·.proof) = some (some proofA) ∧
+    (claimOf crypto ((run crypto {} hist).conns 0) (m3 skA 1)).map (·.proof) = some (some proofA) ∧
+    upgrades (step crypto (run crypto {} hist2) (.verify 1 replayed)).2 = false := by decide +kernel
+
+/-- `C02_complete_exchange` with an interleaved exchange on another connection and a pairing change
+    in between -/
+example : upgrades (step crypto (run crypto {} (hist ++ [.verify 1 m1b, .pair (List.replicate 16 0xB2) (crypto.pkOf skB) false]))
+    (.verify 0 (m3 skA 1))).2 = true := by decide +kernel
+
+/-- `C02_swept_id_refused`: B's honest final message after the only admin A was removed -/
+example :
+    let uB : Uuid := List.replicate 16 0xB2
+    let h : List Op := [.pair uA (crypto.pkOf skA) true, .pair uB (crypto.pkOf skB) false, .verify 0 m1, .unpair uA,
+                        .pair (List.replicate 16 0xC3) (crypto.pkOf skA) true]
+    upgrades (step crypto (run crypto {} h) (.verify 0
+      (encode [(T_SEQUENCE_NUM, [3]),
+        (T_ENCRYPTED_DATA, crypto.aeadEnc (crypto.hkdf [UInt8.ofNat 200 ^^^ UInt8.ofNat 2]) NONCE3
+          (encode [(T_USERNAME, uB), (T_PROOF, crypto.sign skB (crypto.pubOf 200 ++ uB ++ crypto.pubOf 2))]))]))).2 = false := by
+  decide +kernel
+
+/-- ... and the same final message is accepted when A is not removed (a GET keeps the step count) -/
+example :
+    let uB : Uuid := List.replicate 16 0xB2
+    let h : List Op := [.pair uA (crypto.pkOf skA) true, .pair uB (crypto.pkOf skB) false, .verify 0 m1, .get 9,
+                        .pair (List.replicate 16 0xC3) (crypto.pkOf skA) true]
+    upgrades (step crypto (run crypto {} h) (.verify 0
+      (encode [(T_SEQUENCE_NUM, [3]),
+        (T_ENCRYPTED_DATA, crypto.aeadEnc (crypto.hkdf [UInt8.ofNat 200 ^^^ UInt8.ofNat 2]) NONCE3
+          (encode [(T_USERNAME, uB), (T_PROOF, crypto.sign skB (crypto.pubOf 200 ++ uB ++ crypto.pubOf 2))]))]))).2 = true := by
+  decide +kernel
+
+/-- `C02_session_origin`: a world run that obeys the rule (the holder of `skA` signs its final-message
+    material, the network delivers it) and ends in an upgrade -/
+def whist : List WOp :=
+  [.sys (.pair uA (crypto.pkOf skA) true), .sys (.verify 0 m1), .sign skA (crypto.pubOf 200 ++ uA ++ crypto.pubOf 1)]
+
+example : Obeys crypto (fun sk => sk = skA) {} (whist ++ [.sys (.verify 0 (m3 skA 1))]) ∧
+    upgrades (step crypto (wrun crypto {} whist).sys (.verify 0 (m3 skA 1))).2 = true := by
+  refine ⟨?_, by decide +kernel⟩
+  simp only [whist, List.cons_append, List.nil_append, Obeys, and_true, true_and]
+  constructor
+  · intro cl sk m hcl
+    have h0 : claimOf crypto ((wrun crypto {} [.sys (.pair uA (crypto.pkOf skA) true)]).sys.conns 0) m1 = none := by
+      decide +kernel
+    have hcl' : claimOf crypto ((wrun crypto {} [.sys (.pair uA (crypto.pkOf skA) true)]).sys.conns 0) m1 = some cl := hcl
+    rw [h0] at hcl'; cases hcl'
+  · intro cl sk m hcl hpr _
+    have h0 : (claimOf crypto ((wrun crypto {} whist).sys.conns 0) (m3 skA 1)).map (·.proof) = some (some proofA) := by
+      decide +kernel
+    have hcl' : claimOf crypto ((wrun crypto {} whist).sys.conns 0) (m3 skA 1) = some cl := hcl
+    rw [hcl'] at h0
+    simp only [Option.map_some, Option.some.injEq] at h0
+    rw [hpr] at h0
+    have := Sym.strongSig.sign_inj (Option.some.inj h0)
+    rw [this.1, this.2]
+    exact List.mem_singleton.2 rfl
+
 end Demo
+
+/-! the observed traffic of one honest pair-verify exchange satisfies the hypothesis of
+    `C02_dy_signature_rule`, and the only signature under the controller's secret the attacker can
+    ever present is the one over this exchange's material -/
+namespace DYDemo
+open DY DY.Demo
+
+example (t : Tm) (h : Der (· ∈ obs) t) (m : Tm) (hs : Occ (.sig (.sec 1) m) t) : m = material := by
+  obtain ⟨k, hk, hsub⟩ := (C02_dy_signature_rule (· ∈ obs) 1 obs_hid).2 t h m hs
+  simp only [obs, List.mem_cons, List.not_mem_nil, or_false] at hk
+  rcases hk with rfl | rfl | rfl | rfl <;> simp [Occ, material, idA] at hsub
+  exact hsub
+
+/-- the attacker can relay the observed final message (and nothing forces it to know its content) -/
+example : Der (· ∈ obs) (.aead (.kdf (.dh (.sec 10) (.sec 20))) (.cat idA (.sig (.sec 1) material))) :=
+  .known (by simp [obs])
+
+end DYDemo
 
 end Hap.PV
